@@ -74,6 +74,8 @@ def build(shape, focus, assign, ranks, cfg, ctx='alone', opts=None, tag=''):
     po = cfg == 'PO'
     sc = 'N' if po else 'V'
     dom = ['N(0)', 'N(1)', 'N(9)'] if po else ['V(0)', 'V(1)', 'V(2)']
+    if len(assign) >= 5:
+        dom = ['N(0)', 'N(9)'] if po else ['V(0)', 'V(1)']
     tys, fattrs, doms, plan = [], [], [], []
     salt = len(assign) * 7 + focus
     for vi, f in enumerate(shape.variants):
@@ -163,9 +165,29 @@ def generate(tier):
                     assign = ''.join(assign)
                     for ranks in rank_assignments(n, rset):
                         for cfg in CFGS:
-                            if tier == 'quick' and n == 3 and cfg in ('O',):
-                                continue
+                            if tier == 'quick' and n >= 2 and cfg in ('O',):
+                                continue     # Ord with a hand-written PartialOrd runs the same handler as OP_O; kept for n = 1 and in the thorough tier
                             cases.append(build(shape, focus, assign, ranks, cfg))
+    # wide elements: 5 fields, at most two fields deviating in (status, rank) from the plain derive; focus variant at index 3 of 5
+    U, T1 = S.Fields('u'), S.Fields('t', 1)
+    for style in 'tn':
+        fl = S.Fields(style, 5)
+        wide = [(S.Shape('struct', [fl]), 0), (S.Shape('enum', [U, T1, U, fl, T1]), 3)]
+        devs = [(ch, rk) for ch in 'cimlx' for rk in (None, -1, 3) if (ch, rk) != ('c', None)]
+        for shape, focus in wide:
+            for r in (0, 1, 2):
+                for where in itertools.combinations(range(5), r):
+                    small = [('i', None), ('m', None), ('c', -1), ('c', 3), ('l', 3)]
+                    for combo in itertools.product(devs if (r < 2 or tier != 'quick') else small, repeat=r):
+                        assign = ['c'] * 5
+                        ranks = [None] * 5
+                        for w, (ch, rk) in zip(where, combo):
+                            assign[w], ranks[w] = ch, rk
+                        ex = [x for x in ranks if x is not None]
+                        if len(ex) != len(set(ex)):
+                            continue
+                        for cfg in (('PO', 'OP_P') if tier == 'quick' else CFGS):
+                            cases.append(build(shape, focus, ''.join(assign), tuple(ranks), cfg, tag='|wide'))
     # spelling x parameter order x trailing comma, fully, on one- and two-field elements
     for style in 'tn':
         for shape, focus in placements(S.Fields(style, 2), 'quick')[:2]:
@@ -194,7 +216,7 @@ def generate(tier):
     return out
 
 
-RULE = ('focus element (struct, or a variant placed first/middle/last among plain sibling variants) with F fields x full '
+RULE = ('wide elements (5 fields, focus variant 4th of 5) with at most two deviating fields; focus element (struct, or a variant placed first/middle/last among plain sibling variants) with F fields x full '
         'product of {compared, ignored (type whose comparisons panic), method (asymmetric), method (lawful)} x rank in '
         '{default, -1, 0, 1} per field without collisions x trait configuration {PartialOrd; Ord with hand PartialOrd; both '
         'with attributes on Ord(..); both with attributes on PartialOrd(..)}; additionally rank spelling x parameter order '
